@@ -2,8 +2,9 @@
 """Regenerates MANIFEST.json from checks.json (claimed checks) and properties.jsonl."""
 import json
 props=[json.loads(l) for l in open('/verif/properties.jsonl')]
-checks=json.load(open('/verif/checks.json'))
-claimed=checks['claimed']; na=checks['not_applicable']
+import glob,os
+claimed={os.path.basename(f)[:-5]:json.load(open(f)) for f in glob.glob('/verif/checks/C*.json')}
+na=json.load(open('/verif/checks/not_applicable.json'))
 m={"version":1,
  "setup_cmd":"./setup.sh",
  "hooks":{"guard":"verif","enable":"no source hooks are needed: harness files and the zzverif package are injected with go/packages Overlay (symbolic run) and go test -overlay (native replay); guard 'verif' is reserved and unused","baseline_off_cmd":"cd /repo && go test -vet=off -count=1 -timeout 25m ./...","source_commits":[],"add_only":True},
